@@ -74,7 +74,7 @@ def run(tier, seed):
             if "error" in rn:
                 raise common.Inconclusive("real-node layer: %s" % rn["error"][:500])
         _absorb_real_node(out, rn)
-        mass_expiry_part(out, wd, seed)
+        mass_expiry_part(out, wd, seed, 22 if tier == "quick" else 60)
         if tier == "thorough":
             try:
                 cluster_layer(out, wd, seed)
@@ -109,7 +109,7 @@ def _mass_register(port, svc, lo, hi):
     [t.join() for t in ts]
 
 
-def mass_expiry_part(out, wd, seed):
+def mass_expiry_part(out, wd, seed, flip_observe_s=22):
     """many instances per service: more instances than one 2 s check round handles (budget 10 000) fall silent together. The owner
     works them off over several rounds; whatever it expires must also disappear on every other node (bounded)."""
     import multiprocessing
@@ -152,15 +152,21 @@ def mass_expiry_part(out, wd, seed):
             while not flip["stop"].is_set():
                 try:
                     _beat(cl.nodes[0], fsvc, "127.0.0.1", fport)
-                    for n in cl.nodes:
-                        l = _list(n, fsvc)
-                        if l is not None:
-                            flip["obs"].append((round(time.time() - flip["t_switch"], 1), n.id, l.get(("127.0.0.1", fport))))
                 except OSError:
                     pass
                 flip["stop"].wait(1.0)
+
+        def flip_observer():          # its own rhythm: a mark set between two beats must not hide behind the next beat
+            while not flip["stop"].is_set():
+                for n in cl.nodes:
+                    l = _list(n, fsvc)
+                    if l is not None:
+                        flip["obs"].append((round(time.time() - flip["t_switch"], 1), n.id, l.get(("127.0.0.1", fport))))
+                flip["stop"].wait(0.23)
         fth = threading.Thread(target=flip_beater, daemon=True)
         fth.start()
+        fth2 = threading.Thread(target=flip_observer, daemon=True)
+        fth2.start()
         ctx = multiprocessing.get_context("fork")
         t0 = time.time()
         P = 6
@@ -231,8 +237,10 @@ def mass_expiry_part(out, wd, seed):
                 else:
                     out.shape("persistent/%s/%s/kept" % (what, "healthy" if l[k] else "unhealthy"))
         # ---- the switched instance: heart-beating all the time (H = 3 s, beats every second), observed on every node
+        time.sleep(max(0.0, flip["t_switch"] + flip_observe_s - time.time()))
         flip["stop"].set()
         fth.join(5)
+        fth2.join(5)
         obs = [o for o in flip["obs"] if o[0] >= 2.0]
         bad = [o for o in obs if o[2] is not True]
         out.evaluations += len(obs)
